@@ -482,8 +482,15 @@ func (l *Listener) Close() error {
 		return opErr("close", l.addr, errClosed)
 	}
 	l.closed = true
+	pending := l.queue
+	l.queue = nil
 	l.w.wake()
 	l.mu.Unlock()
+	// connections completed by the kernel but never accepted are reset when the listening socket goes away
+	for _, e := range pending {
+		e.Reset()
+		e.Close()
+	}
 	n := l.n
 	n.mu.Lock()
 	ls := n.tcpL[l.addr.Port]
